@@ -91,10 +91,19 @@ def index_holes(model, rep, r):
 def row_carry(model, rep, r):
     rel = model.rel("system")
     an = sysrules.solve_anchors(model, r)
-    carried, acc = sysrules.loop_carried(an["row"])
-    for nme, line in sorted(carried.items()):
-        rep.violation("R4", "system.System.solve", "%s:%d" % (rel, line), "'%s' reaches the row loop through its back edge: a row attribute depends on the previously emitted row, i.e. on construction order" % nme, "carried " + nme)
-    rep.instance("R4", "system.System.solve row loop: no loop-carried scalar", "%s:%d" % (rel, an["row"].lineno), not carried)
+    sysrules.iteration_state_rule(model, rep, "R4", "system.System.solve", "%s:%d" % (rel, an["row"].lineno), an["row"], "row loop", parent_attr=r["PARENTS"])
+    # the per-node loops of the configuration reports
+    n = 0
+    for meth in ("phases", "_pars_and_limits", "tree", "save"):
+        fn = model.own_method("System", meth)
+        if fn is None:
+            raise AnalysisError("System.%s not found" % meth)
+        for loop in ast.walk(fn):
+            if isinstance(loop, ast.For) and (sysrules.iter_is_role(loop, r["TOPO"]) or "_get_nodes" in ast.unparse(loop.iter) or "_get_sources" in ast.unparse(loop.iter)):
+                sysrules.iteration_state_rule(model, rep, "R4", "system.System.%s" % meth, "%s:%d" % (rel, loop.lineno), loop, "node loop", parent_attr=r["PARENTS"])
+                n += 1
+    if n < 2:
+        raise AnalysisError("per-node loops of phases()/_pars_and_limits() not found")
 
 
 def rel_update_rule(model, rep, r):
